@@ -585,11 +585,31 @@ pub fn run(ctx: &Ctx) {
     ctx.random("chains", ctx.pick(150_000, 1_000_000), move || {
         let link = prop_oneof![
             4 => proptest::sample::select(F0.to_vec()).prop_map(|f| (f.to_string(), vec![])),
+            2 => proptest::sample::select(vec![",", " ", "a", "zz"]).prop_map(|s| ("split".to_string(), vec![st(s)])),
+            1 => proptest::sample::select(vec!["-", ""]).prop_map(|s| ("join".to_string(), vec![st(s)])),
+            1 => Just(("compact".to_string(), vec![])),
             3 => (proptest::sample::select(vec!["append", "prepend", "remove", "remove_first", "default"]), gen::text(3)).prop_map(|(f, a)| (f.to_string(), vec![st(&a)])),
             2 => (proptest::sample::select(F2S.to_vec()), gen::text(2), gen::text(2)).prop_map(|(f, a, b)| (f.to_string(), vec![st(&a), st(&b)])),
             2 => (-8i64..8, 1i64..8).prop_map(|(o, l)| ("slice".to_string(), vec![RV::Int(o), RV::Int(l)])),
             1 => (0i64..12, gen::text(2)).prop_map(|(n, e)| ("truncate".to_string(), vec![RV::Int(n), st(&e)])),
         ];
-        (gen::text(24), proptest::collection::vec(link, 1..=4)).prop_map(|(input, chain)| Chain { input, chain })
+        (prop_oneof![4 => gen::text(24), 1 => Just(String::new()), 1 => Just("a,b".to_string())], proptest::collection::vec(link, 1..=4)).prop_map(|(input, chain)| Chain { input, chain })
+    }, chain_oracle);
+    // every chain of 2..3 links over a small link set that produces nil / empty intermediates
+    let links: Vec<(String, Vec<RV>)> = vec![
+        ("split".into(), vec![st(",")]), ("first".into(), vec![]), ("last".into(), vec![]), ("default".into(), vec![st("D")]), ("append".into(), vec![st("x")]),
+        ("size".into(), vec![]), ("upcase".into(), vec![]), ("join".into(), vec![st("-")]), ("compact".into(), vec![]), ("strip".into(), vec![]), ("truncate".into(), vec![RV::Int(1), st("")]),
+    ];
+    let nl = links.len() as u64;
+    let inputs = ["", "a", "a,b", ",", " "];
+    ctx.exhaustive("short_chains", 2 * 5 * nl * nl * nl, move |i| {
+        let d = decode(i, &[2, 5, nl, nl, nl])?;
+        let mut chain = vec![links[d[2] as usize].clone(), links[d[3] as usize].clone()];
+        if d[0] == 1 {
+            chain.push(links[d[4] as usize].clone());
+        } else if d[4] != 0 {
+            return None;
+        }
+        Some(Chain { input: inputs[d[1] as usize].to_string(), chain })
     }, chain_oracle);
 }
